@@ -642,7 +642,8 @@ func (p *H265PACIPacket) TSCI() *H265TSCI {
 		return nil
 	}
 
-	tsci := H265TSCI((uint32(p.phes[0]) << 16) | (uint32(p.phes[1]) << 8) | uint32(p.phes[0]))
+	// TL0PICIDX, IrapPicID and the S/E/RES octet occupy the top three bytes of the 32-bit value
+	tsci := H265TSCI((uint32(p.phes[0]) << 24) | (uint32(p.phes[1]) << 16) | (uint32(p.phes[2]) << 8))
 
 	return &tsci
 }
